@@ -11,6 +11,9 @@ import AdbProofs.Properties.C05Src
     * the two store-draining loops of `read` (`read_drain_snippets`: `x = F; while x: <body>; x = F`, checked syntactically, as ONE iteration): the key looked up is the transaction's
       `(remote_id, local_id)` through `find` / `find_allow_zeros`; nothing parked ⇒ "empty", `self` untouched; otherwise the FIRST parked packet of that key is removed and returned iff
       expected, else the loop looks again — the model's `drainLoop` step (`drainStep`), for every store (`C06_src_read_drain0/1_sync/async`).
+    * model side: `routeStep` / `drainStep` are not transcriptions to be trusted — `C06_model_readIter_shape`, `C06_model_route_step` and `C06_model_drainLoop_step` prove that the model's
+      `readIter` is "drain, else read one packet and route it", that its routing leaves exactly `routeStep`'s store and result (touching only the observation trace besides), and that one
+      unfolding of `drainLoop` is `drainStep`.
   Built from `C19_src_args_match`, `C19_src_put`, `C19_src_clear` — so the per-stream isolation theorems of C01 / C06 / C19, which are about `Store.put` / `Txn.argsMatch`, are about the
   routing the source performs now.  Only property theorems and non-vacuity examples live here.
 -/
@@ -94,18 +97,26 @@ example : Src.AdbDevice_io_read_route (.obj "_AdbIOManager" [("_packet_store", e
     [] ⟨some 1, some 7, none, none, none⟩ [.WRTE, .CLSE] .WRTE 9 2 false [1] rfl rfl rfl
   exact h.trans rfl
 
-/-- one iteration of the model's `drainLoop` (Wire.lean), as a pure function of the store: nothing parked for this transaction / a parked packet that is expected (returned, removed) /
-    a parked packet that is not (removed, look again); `Store.get`'s error otherwise -/
-def drainStep (expected : List Cmd) (t : Txn) (az : Bool) (s : Store) : Except StoreErr (String × Option (Cmd × Nat × Nat × Bytes) × Store) :=
+/-- outcome of one iteration of the store-draining loop -/
+inductive Drain where
+  | empty                                                       -- nothing parked for this transaction: the loop ends
+  | ret (p : Cmd × Nat × Nat × Bytes) (s' : Store)              -- a parked packet that is expected: removed and returned
+  | again (p : Cmd × Nat × Nat × Bytes) (s' : Store)            -- a parked packet that is not expected: removed, look again
+
+/-- one iteration of the model's `drainLoop` (Wire.lean), as a pure function of the store (`C06_model_drainLoop_step` below); `Store.get`'s error otherwise -/
+def drainStep (expected : List Cmd) (t : Txn) (az : Bool) (s : Store) : Except StoreErr Drain :=
   match (if az then s.findAllowZeros t.remoteId t.localId else s.find t.remoteId t.localId) with
-  | none => .ok ("empty", none, s)
+  | none => .ok .empty
   | some k =>
     match s.get (some k.1) (some k.2) with
     | .error e => .error e
-    | .ok (p, s') => if expected.contains p.1 then .ok ("return", some p, s') else .ok ("again", none, s')
+    | .ok (p, s') => if expected.contains p.1 then .ok (.ret p s') else .ok (.again p s')
 
-def encDrain (mcls scls : String) (mfs : List (String × Py.Val)) (_s : Store) : Except StoreErr (String × Option (Cmd × Nat × Nat × Bytes) × Store) → Py.M Py.Val
-  | .ok (tag, r, s') => .ok (.tuple [.tuple [.str tag, encRet r], if tag = "empty" then .obj mcls mfs else .obj mcls (asetS "_packet_store" (encStore scls s') mfs)])
+/-- what the extracted iteration returns: `((tag, value), self')` -/
+def encDrain (mcls scls : String) (mfs : List (String × Py.Val)) : Except StoreErr Drain → Py.M Py.Val
+  | .ok .empty => .ok (.tuple [.tuple [.str "empty", .none], .obj mcls mfs])
+  | .ok (.ret p s') => .ok (.tuple [.tuple [.str "return", encRet (some p)], .obj mcls (asetS "_packet_store" (encStore scls s') mfs)])
+  | .ok (.again _ s') => .ok (.tuple [.tuple [.str "again", .none], .obj mcls (asetS "_packet_store" (encStore scls s') mfs)])
   | .error .typeError => .error .typeError
   | .error .keyError => .error .keyError
   | .error .queueEmpty => .error .queueEmpty
@@ -128,9 +139,9 @@ theorem drain_tail (scls : String) (s : Store) (expected : List Cmd) (k0 k1 : Na
           (Except.ok (Py.Val.tuple [.tuple [.str "return", .tuple [nth t15 0, nth t15 1, nth t15 2, nth t15 3]], .obj mcls (asetS "_packet_store" t14.snd mfs)]) : Py.M Py.Val)
         else
           Except.ok (Py.Val.tuple [.tuple [.str "again", .none], .obj mcls (asetS "_packet_store" t14.snd mfs)]))
-      = encDrain mcls scls mfs s (match s.get (some k0) (some k1) with
+      = encDrain mcls scls mfs (match s.get (some k0) (some k1) with
           | .error e => .error e
-          | .ok (p, s') => if expected.contains p.1 then .ok ("return", some p, s') else .ok ("again", none, s')) := by
+          | .ok (p, s') => if expected.contains p.1 then .ok (.ret p s') else .ok (.again p s')) := by
   have hg := C19_src_get scls s (some k0) (some k1)
   simp only [encOptNat] at hg
   rw [hg]
@@ -148,7 +159,7 @@ theorem drain_tail (scls : String) (s : Store) (expected : List Cmd) (k0 k1 : Na
 theorem C06_src_read_drain0_sync (mcls scls icls : String) (mfs ifs : List (String × Py.Val)) (s : Store) (t : Txn) (expected : List Cmd) (az : Bool)
     (hs : alookupS "_packet_store" mfs = some (encStore scls s))
     (hl : alookupS "local_id" ifs = some (encOptNat t.localId)) (hr : alookupS "remote_id" ifs = some (encOptNat t.remoteId)) :
-    Src.AdbDevice_io_read_drain0 (.obj mcls mfs) (encCmds expected) (.obj icls ifs) (.bool az) = encDrain mcls scls mfs s (drainStep expected t az s) := by
+    Src.AdbDevice_io_read_drain0 (.obj mcls mfs) (encCmds expected) (.obj icls ifs) (.bool az) = encDrain mcls scls mfs (drainStep expected t az s) := by
   have hf := C19_src_find scls s t.remoteId t.localId
   have hfz := C19_src_find_allow_zeros scls s t.remoteId t.localId
   cases az
@@ -171,7 +182,7 @@ theorem C06_src_read_drain0_sync (mcls scls icls : String) (mfs ifs : List (Stri
 theorem C06_src_read_drain1_sync (mcls scls icls : String) (mfs ifs : List (String × Py.Val)) (s : Store) (t : Txn) (expected : List Cmd) (az : Bool)
     (hs : alookupS "_packet_store" mfs = some (encStore scls s))
     (hl : alookupS "local_id" ifs = some (encOptNat t.localId)) (hr : alookupS "remote_id" ifs = some (encOptNat t.remoteId)) :
-    Src.AdbDevice_io_read_drain1 (.obj mcls mfs) (encCmds expected) (.obj icls ifs) (.bool az) = encDrain mcls scls mfs s (drainStep expected t az s) := by
+    Src.AdbDevice_io_read_drain1 (.obj mcls mfs) (encCmds expected) (.obj icls ifs) (.bool az) = encDrain mcls scls mfs (drainStep expected t az s) := by
   have hf := C19_src_find scls s t.remoteId t.localId
   have hfz := C19_src_find_allow_zeros scls s t.remoteId t.localId
   cases az
@@ -194,7 +205,7 @@ theorem C06_src_read_drain1_sync (mcls scls icls : String) (mfs ifs : List (Stri
 theorem C06_src_read_drain0_async (mcls scls icls : String) (mfs ifs : List (String × Py.Val)) (s : Store) (t : Txn) (expected : List Cmd) (az : Bool)
     (hs : alookupS "_packet_store" mfs = some (encStore scls s))
     (hl : alookupS "local_id" ifs = some (encOptNat t.localId)) (hr : alookupS "remote_id" ifs = some (encOptNat t.remoteId)) :
-    Src.AdbDeviceAsync_io_read_drain0 (.obj mcls mfs) (encCmds expected) (.obj icls ifs) (.bool az) = encDrain mcls scls mfs s (drainStep expected t az s) := by
+    Src.AdbDeviceAsync_io_read_drain0 (.obj mcls mfs) (encCmds expected) (.obj icls ifs) (.bool az) = encDrain mcls scls mfs (drainStep expected t az s) := by
   have hf := C19_src_find scls s t.remoteId t.localId
   have hfz := C19_src_find_allow_zeros scls s t.remoteId t.localId
   cases az
@@ -217,7 +228,7 @@ theorem C06_src_read_drain0_async (mcls scls icls : String) (mfs ifs : List (Str
 theorem C06_src_read_drain1_async (mcls scls icls : String) (mfs ifs : List (String × Py.Val)) (s : Store) (t : Txn) (expected : List Cmd) (az : Bool)
     (hs : alookupS "_packet_store" mfs = some (encStore scls s))
     (hl : alookupS "local_id" ifs = some (encOptNat t.localId)) (hr : alookupS "remote_id" ifs = some (encOptNat t.remoteId)) :
-    Src.AdbDeviceAsync_io_read_drain1 (.obj mcls mfs) (encCmds expected) (.obj icls ifs) (.bool az) = encDrain mcls scls mfs s (drainStep expected t az s) := by
+    Src.AdbDeviceAsync_io_read_drain1 (.obj mcls mfs) (encCmds expected) (.obj icls ifs) (.bool az) = encDrain mcls scls mfs (drainStep expected t az s) := by
   have hf := C19_src_find scls s t.remoteId t.localId
   have hfz := C19_src_find_allow_zeros scls s t.remoteId t.localId
   cases az
@@ -236,9 +247,77 @@ theorem C06_src_read_drain1_async (mcls scls icls : String) (mfs ifs : List (Str
       simp only [encOptKey, Py.truthy_encOptKey, pysimp, Option.isSome, if_true, ite_true, Py.getPath_attr _ _ _ _ hs, Py.getItem_pair0, Py.getItem_pair1]
       exact drain_tail scls s expected k0 k1 mcls mfs
 
-/-! ### Non-vacuity: with WRTE [1] then CLSE parked for (7, 1) and the reader expecting CLSE only, the first step removes the WRTE and looks again -/
-example : ∃ s', drainStep [.CLSE] ⟨some 1, some 7, none, none, none⟩ false (Store.put (Store.put [] 7 1 .WRTE [1]) 7 1 .CLSE []) = .ok ("again", none, s')
-    ∧ drainStep [.CLSE] ⟨some 1, some 7, none, none, none⟩ false s' = .ok ("return", some (.CLSE, 7, 1, []), []) := ⟨_, rfl, rfl⟩
-example : drainStep [.CLSE] ⟨some 1, some 7, none, none, none⟩ false [] = .ok ("empty", none, []) := rfl
+/-- The model side: one unfolding of the model's `drainLoop` is `drainStep` on the world's store — "empty" ends the loop with the world untouched, an expected parked packet is
+    delivered (store updated, `deliver` recorded), an unexpected one is removed (`unstore` recorded) and the loop goes on, a `Store.get` error is raised with the world untouched. -/
+theorem C06_model_drainLoop_step (expected : List Cmd) (t : Txn) (az : Bool) (fuel : Nat) (w : World) :
+    drainLoop expected t az (fuel + 1) w
+      = match drainStep expected t az w.store with
+        | .ok .empty => (.ok none, w)
+        | .ok (.ret (c, a0, a1, d) s') => (.ok (some ⟨c, a0, a1, d⟩), { w with store := s', trace := .deliver ⟨c, a0, a1, d⟩ :: w.trace })
+        | .ok (.again (c, a0, a1, d) s') => drainLoop expected t az fuel { w with store := s', trace := .unstore ⟨c, a0, a1, d⟩ :: w.trace }
+        | .error e => (.error (storeErr e), w) := by
+  simp only [drainLoop, drainStep, storeFind, storeGet, bind, M.bind, pure, M.pure, emit, M.modify]
+  cases az <;> simp only [Bool.false_eq_true, if_false, ite_false, if_true, ite_true]
+  · cases hk : w.store.find t.remoteId t.localId with
+    | none => rfl
+    | some k =>
+      simp only []
+      cases hg : w.store.get (some k.1) (some k.2) with
+      | error e => simp [M.bind, storeGet, hg]
+      | ok r =>
+        obtain ⟨⟨c, a0, a1, d⟩, s'⟩ := r
+        by_cases he : c ∈ expected <;> simp [M.bind, storeGet, hg, he, M.modify, M.pure]
+  · cases hk : w.store.findAllowZeros t.remoteId t.localId with
+    | none => rfl
+    | some k =>
+      simp only []
+      cases hg : w.store.get (some k.1) (some k.2) with
+      | error e => simp [M.bind, storeGet, hg]
+      | ok r =>
+        obtain ⟨⟨c, a0, a1, d⟩, s'⟩ := r
+        by_cases he : c ∈ expected <;> simp [M.bind, storeGet, hg, he, M.modify, M.pure]
+
+/-- the tail of the model's `readIter` after `readPacket` (verbatim) -/
+def routeM (expected : List Cmd) (t : Txn) (allowZeros : Bool) (p : Pkt) : M (Option Pkt) :=
+  if !t.argsMatch p.arg0 p.arg1 allowZeros then do
+    withLock lockStore (storePut p)
+    pure none
+  else do
+    if p.cmd = Cmd.CLSE then withLock lockStore (storeClear p.arg0 p.arg1)
+    if expected.contains p.cmd then do emit (.deliver p); pure (some p)
+    else do emit (.drop p); pure none
+
+/-- `readIter` is: under the transport lock, drain the store; if nothing was returned, read one packet and route it with `routeM`. -/
+theorem C06_model_readIter_shape (expected : List Cmd) (t : Txn) (az : Bool) :
+    readIter expected t az = withLock lockTransport (do
+      let w ← M.get
+      match (← withLock lockStore (drainLoop expected t az w.fuel)) with
+      | some p => pure (some p)
+      | none => do
+        let p ← readPacket t
+        routeM expected t az p) := rfl
+
+/-- The model side of the routing step: whenever the store lock is free, `routeM` never fails, leaves exactly `routeStep`'s store, hands the reader exactly `routeStep`'s packet,
+    and changes nothing else in the world but the observation trace. -/
+theorem C06_model_route_step (expected : List Cmd) (t : Txn) (az : Bool) (p : Pkt) (w : World) (hfree : lockStore ∉ w.locks) :
+    routeM expected t az p w
+      = (.ok ((routeStep expected t az w.store p.cmd p.arg0 p.arg1 p.data).2.map fun q => ⟨q.1, q.2.1, q.2.2.1, q.2.2.2⟩),
+         { w with store := (routeStep expected t az w.store p.cmd p.arg0 p.arg1 p.data).1,
+                  trace := (if t.argsMatch p.arg0 p.arg1 az then (if expected.contains p.cmd then TEv.deliver p else TEv.drop p)
+                            else (if p.cmd = Cmd.CLSE ∧ w.store.queue p.arg0 p.arg1 = none then TEv.lost p else TEv.park p)) :: w.trace }) := by
+  obtain ⟨c, a0, a1, d⟩ := p
+  by_cases hm : t.argsMatch a0 a1 az = true
+  · by_cases hc : c = .CLSE
+    · subst hc
+      by_cases he : Cmd.CLSE ∈ expected <;>
+        simp [routeM, routeStep, hm, he, withLock, hfree, storeClear, M.modify, emit, bind, M.bind, pure, M.pure, List.erase_cons_head]
+    · by_cases he : c ∈ expected <;>
+        simp [routeM, routeStep, hm, hc, he, withLock, hfree, storeClear, M.modify, emit, bind, M.bind, pure, M.pure, List.erase_cons_head]
+  · simp [routeM, routeStep, hm, withLock, hfree, storePut, bind, M.bind, pure, M.pure, List.erase_cons_head]
+
+/-! ### Non-vacuity: with WRTE [1] then CLSE parked for (7, 1) and the reader expecting CLSE only, the first step removes the WRTE and looks again, the second returns the CLSE -/
+example : ∃ s', drainStep [.CLSE] ⟨some 1, some 7, none, none, none⟩ false (Store.put (Store.put [] 7 1 .WRTE [1]) 7 1 .CLSE []) = .ok (.again (.WRTE, 7, 1, [1]) s')
+    ∧ drainStep [.CLSE] ⟨some 1, some 7, none, none, none⟩ false s' = .ok (.ret (.CLSE, 7, 1, []) []) := ⟨_, rfl, rfl⟩
+example : drainStep [.CLSE] ⟨some 1, some 7, none, none, none⟩ false [] = .ok .empty := rfl
 
 end Adb
